@@ -644,7 +644,7 @@ def main():
             parts.append(untranslated(ns, ["introConst", "terminal?", "reorder", "standardise"], str(e)))
         status["Ite::new"] = "UNTRANSLATED (translator route not available, tied by correspondence only): %s" % e
     write_if_changed(OUT_ITE, "\n".join(parts))
-    parts = [head % ("The one-line `FiniteField` operations (src/util/semirings/finitefield.rs) over `Nat`.", "TieFF")]
+    parts = ["import RsddModel.Model.Semirings\n" + head % ("The one-line `FiniteField` operations (src/util/semirings/finitefield.rs) over `Nat`.", "TieFF")]
     try:
         ff = translate_ff(open(os.path.join(REPO, "src/util/semirings/finitefield.rs")).read())
         parts.append(ff_section(ff))
